@@ -83,6 +83,7 @@ class Env:
 
     def __init__(self, idx, desc):
         self.desc = desc
+        self.keep = []
         desc["tag"] = idx
         if desc.get("libc"):
             self.so = None                        # ffi.dlopen(None): the process itself, libc symbols
@@ -182,7 +183,14 @@ def run_case(env, case):
         if m == "inline" and case.get("fresh_ffi"):
             ffi = cffi.FFI()
             ffi.cdef(c_cdef(desc))
-        libs.append((ffi, ffi.dlopen(env.so)))
+        if case.get("from_handle", [False] * len(case["modes"]))[len(libs)]:
+            # a lib object made from a caller-supplied `void *` handle (auto_close = 0): the handle comes from ctypes
+            import ctypes
+            cd = ctypes.CDLL(env.so)
+            env.keep.append(cd)
+            libs.append((ffi, ffi.dlopen(ffi.cast("void *", cd._handle))))
+        else:
+            libs.append((ffi, ffi.dlopen(env.so)))
     outs = []
     for op in case["ops"]:
         kind, l = op[0], op[1]
